@@ -4,6 +4,7 @@ import (
 	"context"
 	"errors"
 	"io"
+	"math/rand"
 	"net"
 	"net/http"
 	"os"
@@ -104,7 +105,8 @@ type memConn struct {
 	rd, wr *halfConn
 }
 
-func (c *memConn) Read(p []byte) (int, error)  { return c.rd.read(p) }
+func (c *memConn) Read(p []byte) (int, error) { return c.rd.read(p) }
+
 func (c *memConn) Write(p []byte) (int, error) { return c.wr.write(p) }
 func (c *memConn) Close() error {
 	c.rd.close()
@@ -172,14 +174,42 @@ func (l *memListener) dial(ctx context.Context, network, addr string) (net.Conn,
 
 // realNet is real net/http over the in-memory wire.
 type realNet struct {
+	lag      func() time.Duration
 	lis      *memListener
 	srv      *http.Server
 	h1, h2   *http.Client
 	tr1, tr2 *http.Transport
 }
 
-func newRealNet(handler http.Handler) *realNet {
+func newRealNet(handler http.Handler, seed int64) *realNet {
 	n := &realNet{lis: newMemListener()}
+	if seed%3 != 0 {
+		// Two thirds of the worlds have a transport goroutine that now and then
+		// comes back late (fake clock) to read the request body, and handlers
+		// whose end of response follows their return late. (Sleeping inside
+		// conn.Write is not an option: net/http holds a mutex there, and a
+		// goroutine waiting for a mutex never lets the bubble's clock advance.)
+		var mu sync.Mutex
+		rng := rand.New(rand.NewSource(seed))
+		n.lag = func() time.Duration {
+			mu.Lock()
+			defer mu.Unlock()
+			if rng.Intn(3) != 0 {
+				return 0
+			}
+			return time.Duration(1+rng.Intn(300)) * time.Microsecond
+		}
+		inner := handler
+		handler = http.HandlerFunc(func(rw http.ResponseWriter, r *http.Request) {
+			inner.ServeHTTP(rw, r)
+			if d := n.lag(); d > 0 {
+				if f, ok := rw.(http.Flusher); ok {
+					f.Flush()
+				}
+				time.Sleep(d)
+			}
+		})
+	}
 	protos := new(http.Protocols)
 	protos.SetHTTP1(true)
 	protos.SetUnencryptedHTTP2(true)
@@ -210,6 +240,9 @@ func (c *realClient) Do(req *http.Request) (*http.Response, error) {
 	cl := c.n.h1
 	if c.h2 {
 		cl = c.n.h2
+	}
+	if c.n.lag != nil && req.Body != nil {
+		req.Body = &lagBody{ReadCloser: req.Body, lag: c.n.lag}
 	}
 	resp, err := cl.Do(req)
 	if err == nil && call != nil && call.K.DropTrailers {
@@ -243,4 +276,22 @@ func (n *realNet) close() {
 	for _, c := range conns {
 		_ = c.Close()
 	}
+}
+
+// lagBody is a request body whose reader (net/http's transport goroutine) is
+// sometimes late coming back for more.
+type lagBody struct {
+	io.ReadCloser
+	lag   func() time.Duration
+	reads int
+}
+
+func (b *lagBody) Read(p []byte) (int, error) {
+	if b.reads > 0 {
+		if d := b.lag(); d > 0 {
+			time.Sleep(d)
+		}
+	}
+	b.reads++
+	return b.ReadCloser.Read(p)
 }
